@@ -303,7 +303,16 @@ def stringCastMangler (parse : String → Ty → Outcome Val) : Mangler :=
             | .set _ => t
             | .ptr e => e
             | other => other
-          parse str castTo
+          -- parse.String returns slices and maps as they are: boxed for a pointer-to-collection field
+          let boxed := match t with
+            | .ptr (.slice _) => true
+            | .ptr (.map _ _) => true
+            | .ptr (.set _) => true
+            | _ => false
+          match parse str castTo with
+          | .ok v => .ok (if boxed then .ptr v else v)
+          | .err c => .err c
+          | .panic c => .panic c
         | _ => .panic "not a *string",
     recurse := true }
 
